@@ -48,3 +48,20 @@ def check(prog, run):
     if not any(o.rule == "O-hom" for o in run.obs):
         run.ob("O-hom", fn.qual, "all-operations", True, "no event on any configuration")
     run.trusted |= set(CTX.used)
+
+
+FD = "functions.fdd"
+MUTANTS = [
+    ("C07-m01 square root of the density as bell", FD, "SDOF_bellandMS", "Sval[csm, csm, l_] ** 2", "Sval[csm, csm, l_]"),
+    ("C07-m02 lag axis from fs instead of dt", FD, "EFDD_mpe", "df = 1 / dt / nxseg", "df = dt / nxseg"),
+    ("C07-m03 decrement of un-normalised extrema against a threshold", FD, "EFDD_mpe", "normSDOFcorr = SDOFcorr1[:len(SDOFcorr1) // 2] / SDOFcorr1[np.argmax(SDOFcorr1)]", "normSDOFcorr = SDOFcorr1[:len(SDOFcorr1) // 2]\nif np.max(normSDOFcorr) < 1.0:\n    normSDOFcorr = normSDOFcorr * 2"),
+    ("C07-m05 FSDD bell quadratic in the spectrum", FD, "SDOF_bellandMS", "np.dot(np.dot(phi_FDD.conj().T, Sy[:, :, el]), phi_FDD)", "np.dot(np.dot(phi_FDD.conj().T, Sy[:, :, el]), np.dot(Sy[:, :, el], phi_FDD))"),
+    ("C07-m06 band default used instead of DF2", FD, "EFDD_mpe", "SDOF_bellandMS(Sy, dt, sel_fn, phi_FDD, method=method, cm=cm, MAClim=MAClim, DF=DF2)", "SDOF_bellandMS(Sy, dt, sel_fn, phi_FDD, method=method, cm=cm, MAClim=MAClim)"),
+    ("C07-m07 damped frequency in samples", FD, "EFDD_mpe", "Td = np.diff(time[minmax_fit_idx]) * 2", "Td = np.diff(minmax_fit_idx) * 2"),
+    ("C07-m08 window correction with a time constant in seconds", FD, "EFDD_mpe", "lam = 2 * lam - 1 / tau", "lam = 2 * lam - dt / tau"),
+]
+REWRITES = [
+    ("rename:C07-r01", FD, "EFDD_mpe", "SDOFcorr1", "decay"),
+    ("C07-r02 power via multiplication", FD, "SDOF_bellandMS", "Sval[csm, csm, l_] ** 2", "Sval[csm, csm, l_] * Sval[csm, csm, l_]"),
+    ("C07-r03 time step written out", FD, "EFDD_mpe", "df = 1 / dt / nxseg", "df = 1 / (dt * nxseg)"),
+]
